@@ -1,14 +1,10 @@
 package core
 
 import (
-	"github.com/jsightapi/jsight-schema-go-library/bytes"
-	"github.com/jsightapi/jsight-schema-go-library/fs"
 	"os"
 
 	"github.com/jsightapi/jsight-api-go-library/catalog"
-	"github.com/jsightapi/jsight-api-go-library/directive"
 	"github.com/jsightapi/jsight-api-go-library/internal/verifrt"
-	"github.com/jsightapi/jsight-api-go-library/notation"
 )
 
 // VerifH_Determinism (C03): the same document processed twice gives the same
@@ -58,45 +54,6 @@ func VerifH_DeterminismUnusedParams() {
 	verifrt.Note("second", b)
 	verifrt.Assert("C03.unused-params-message", a == b)
 	verifrt.Reach("C03.unused-params.two", n >= 2)
-}
-
-// VerifH_DeterminismPathBinding (C03): building the path variables of the same
-// catalog twice gives the same verdict and the same diagnostic under every map
-// iteration order.
-func VerifH_DeterminismPathBinding() {
-	dp := []int{verifrt.Choice("dpath", len(verifPathMenu)), verifrt.Choice("dpath", len(verifPathMenu))}
-	dk := []int{verifrt.Choice("dkeys", len(verifKeyMenu)), verifrt.Choice("dkeys", len(verifKeyMenu))}
-	ip := verifrt.Choice("ipath", len(verifPathMenu))
-	build := func() *JApiCore {
-		file := fs.NewFile("t.jst", "0123456789")
-		core := NewJApiCore(file)
-		for i := 0; i < 2; i++ {
-			sc := &catalog.SchemaContentJSight{TokenType: "object", Type: "object"}
-			for _, k := range verifKeyMenu[dk[i]] {
-				key := k
-				sc.Children = append(sc.Children, &catalog.SchemaContentJSight{Key: &key, TokenType: "string", Type: "string", ScalarValue: "v"})
-			}
-			s := catalog.NewSchema(notation.SchemaNotationJSight)
-			s.ContentJSight = sc
-			pd := directive.New(directive.Path, directive.NewCoords(file, bytes.Index(i+1), bytes.Index(i+1)))
-			pp, err := PathParameters(verifPathMenu[dp[i]])
-			verifrt.Assume(err == nil)
-			core.rawPathVariables = append(core.rawPathVariables, rawPathVariable{schema: s, parameters: pp, pathDirective: *pd, parentDirective: *pd})
-		}
-		d := directive.New(directive.Get, directive.NewCoords(file, 5, 5))
-		_ = d.SetNamedParameter("Path", verifPathMenu[ip])
-		verifrt.Assume(core.catalog.AddHTTPMethod(*d) == nil)
-		return core
-	}
-	je0 := build().BuildResourceMethodsPathVariables()
-	je1 := build().BuildResourceMethodsPathVariables()
-	verifrt.Assert("C03.pathbinding.same-verdict", (je0 == nil) == (je1 == nil))
-	if je0 != nil && je1 != nil {
-		verifrt.Note("diagnostic-1", je0.Msg)
-		verifrt.Note("diagnostic-2", je1.Msg)
-		verifrt.Assert("C03.pathbinding.same-diagnostic", je0.Msg == je1.Msg && je0.Index() == je1.Index())
-		verifrt.Reach("C03.pathbinding.rejected", true)
-	}
 }
 
 var verifMenuCross = []int{tTypeAny, tTag, tTags, tGetPath, tServer, tURL, tGet, tMacro, tPaste}
